@@ -880,3 +880,27 @@ pub fn tree_depth(nodes: &[TNode]) -> usize {
         TreeTok::Group(k, _) => 1 + tree_depth(k),
     }).max().unwrap_or(0)
 }
+
+
+/// the text a generated map_err writes into the error it rewrites: `M<tag>[<expected set>|<user message>]`. Markers nest
+/// (a map_err around a recursive reference wraps the marker of the level below), so the inner message is kept short: beyond
+/// 48 bytes it is replaced by its first 32 bytes and a hash of the whole (without this a 16-level recursion through two
+/// map_err nodes produced a 4 GiB message)
+pub fn map_err_marker(tag: u32, expected: &Option<Vec<crate::build::Pat>>, custom: &Option<String>) -> String {
+    let inner = match custom {
+        None => "-".to_string(),
+        Some(m) if m.len() <= 48 => m.clone(),
+        Some(m) => {
+            let mut h = 0xcbf29ce484222325u64;
+            for b in m.bytes() {
+                h = (h ^ b as u64).wrapping_mul(0x100000001b3);
+            }
+            let mut cut = 32;
+            while !m.is_char_boundary(cut) {
+                cut -= 1;
+            }
+            format!("{}..#{:016x}", &m[..cut], h)
+        }
+    };
+    format!("M{}[{:?}|{}]", tag, expected, inner)
+}
